@@ -269,6 +269,10 @@ void same_object_again(const std::string &scratch) {
     mark(hist);
     { Path abs(root + "/d3/y"); expect(abs, "missing", hist); { std::ofstream o(root + "/d3/y"); o << "1"; } expect(abs, "created as a file", hist); fs::remove(root + "/d3/y"); expect(abs, "removed", hist);
       fs::create_directory(root + "/d3/y"); expect(abs, "re-created as a directory", hist); fs::remove(root + "/d3/y"); expect(abs, "removed again", hist); }
+    hist = "again setPath";
+    mark(hist);
+    { fs::current_path(root + "/d1"); Path p("x"); expect(p, "x in d1 (a directory)", hist); p.setPath(root + "/d2/x"); expect(p, "after setPath to a file", hist); p.setPath("missing"); expect(p, "after setPath to a missing name", hist);
+      p.setPath(root + "/d1"); expect(p, "after setPath to a directory", hist); Path q; q = p; p.setPath(root + "/d2/x"); expect(q, "a copy taken before setPath", hist); expect(p, "the original after setPath", hist); }
     fs::current_path(scratch);
     fs::remove_all(root);
 }
